@@ -270,6 +270,11 @@ inline std::string sanitizer_signature(const std::string& log) {
     else if (m.find("division by zero") != std::string::npos) kind = "ubsan:div-by-zero";
     else if (m.find("outside the range of representable") != std::string::npos) kind = "ubsan:float-cast-overflow";
     else kind = "ubsan:" + m.substr(0, 40);
+  } else if ((p = log.find("ThreadSanitizer: ")) != std::string::npos) {
+    size_t e = log.find_first_of("(\n", p + 17);
+    kind = "tsan:" + log.substr(p + 17, e - p - 17);
+    while (!kind.empty() && kind.back() == ' ') kind.pop_back();
+    for (char& ch : kind) if (ch == ' ') ch = '-';
   } else if ((p = log.find("AddressSanitizer: ")) != std::string::npos) {
     size_t e = log.find_first_of(" \n", p + 18);
     kind = "asan:" + log.substr(p + 18, e - p - 18);
